@@ -150,6 +150,17 @@ CLAIMED = {
         note="array/bag/delayed collections only (dataframe needs pyarrow); chunk executions atomic under E1, "
              "so the order relation is between whole chunk executions.",
         ref="DESIGN.md §4 C16"),
+    "C14": dict(
+        technique="deterministic simulation (E1): the same nested structure computed under several scheduler "
+                  "choices (sync, Executor instance, threaded, multiprocessing with cloudpickle, get_async) and "
+                  "simulated schedules, optimize_graph/traverse on/off; persist/optimize followed by compute",
+        text="compute must return the identical nesting with every delayed/array/bag collection replaced by the "
+             "value of its eager twin, identically for every scheduler choice, simulated completion schedule "
+             "and optimize_graph setting; persist/optimize must return the same structure with collections of "
+             "the same type and metadata that compute (under yet another schedule) to the same values.",
+        note="dataframe collections are not generated (pyarrow absent); iterators are single-use so structures "
+             "holding one are computed once; tasks atomic under E1.",
+        ref="DESIGN.md §4 C14"),
 }
 
 NA = {
